@@ -4,5 +4,6 @@ package all
 import (
 	_ "verif/h/c04"
 	_ "verif/h/c05"
+	_ "verif/h/c07"
 	_ "verif/h/c18"
 )
